@@ -31,7 +31,8 @@ TRUSTED_BASE = [
 ]
 ASSUMPTIONS = [
     'PARTIAL: equality of standard output and return value with the untraced execution is validated on generated programs, not proved',
-    'programs do not print __name__ / __file__ (the script module is named nextline.spawned.plugin.plugins._script under nextline)',
+    'programs do not print __name__ (by design the script module is named nextline.spawned.plugin.plugins._script under nextline, __main__ when '
+    'executed directly; an `if __name__ == "__main__"` block does not run under nextline) -- progen.ENV_OBSERVATIONS',
     'per-thread output is compared up to the last newline written (C13: output is reported in whole lines)',
     'the raw traceback of an escaping exception is the runner frame followed by the traceback of the direct execution',
 ]
@@ -57,6 +58,7 @@ class InterruptPolicy:
     def __init__(self, args):
         self.n = args.get('after', 1)
         self.cmd = args.get('cmd', 'next')
+        self.grace = args.get('grace', self.GRACE)
         self.k = 0
         self.done = False
         self.nevents = 0
@@ -80,7 +82,7 @@ class InterruptPolicy:
         import signal
         import threading
         import time
-        time.sleep(self.GRACE)
+        time.sleep(self.grace)
         for _ in range(self.MAX_SIGNALS):
             if self.nevents != seen:
                 return              # the run has moved on: the interrupt was taken
@@ -137,6 +139,11 @@ def gen_jobs(rng, tier: str) -> list:
             if name == 'syntax-error' and form == 'code':
                 continue                # a code object cannot be built from it
             mk(lambda p, r, s=src: s, 'fixed:' + name, form, pols[(i + k) % len(pols)], True, k == 2)
+    # programs that reveal how the code is compiled / exec'd (compiler flags, globals, interpreter flags): source text and
+    # path on every run (nextline compiles these itself), code object / callable in rotation
+    for i, (name, src) in enumerate(progen.ENV_PROGRAMS):
+        for k, form in enumerate(['str', 'path', c05.FORMS[2 + i % 2]]):
+            mk(lambda p, r, s=src: s, name, form, pols[(i + 2 * k) % len(pols)], True, (i + k) % 4 == 3)
     # corpus/C04/*.json: known findings, run on every run
     d = C.CORPUS / 'C04'
     for p in sorted(d.glob('*.json')) if d.exists() else []:
@@ -259,16 +266,34 @@ def run(ctx, jobs: list, corr: Corr, seen: set) -> None:
     from .. import child
     strip = ('block', 'name', 'pol', 'interrupt', 'expect')
     results = child.run_jobs([{k: v for k, v in j.items() if k not in strip} for j in jobs], par=14, chunk=8)
-    redo = [i for i, r in enumerate(results) if (r.get('error') and not jobs[i].get('interrupt')) or not r.get('reference')]
-    if redo:
-        again = child.run_jobs([dict({k: v for k, v in jobs[i].items() if k not in strip}, id=f'r{i}') for i in redo], par=6, chunk=2)
+    # infrastructure failures (time-outs under load, a worker that died): run again, the last time one at a time;
+    # a job that succeeds on a retry is an ordinary job
+    for attempt, (par, chunk) in enumerate([(6, 2), (1, 1)]):
+        redo = [i for i, r in enumerate(results) if r.get('error') or not r.get('reference')]
+        if not redo:
+            break
+        ctx.log(f'retry {attempt + 1}: {len(redo)} job(s): ' + ', '.join(f'{jobs[i]["name"]}:{results[i].get("error")}' for i in redo[:5]))
+        again = child.run_jobs([dict({k: v for k, v in jobs[i].items() if k not in strip}, id=f'r{attempt}_{i}') for i in redo], par=par, chunk=chunk)
         for i, r in zip(redo, again):
-            results[i] = r
+            if not (r.get('error') or not r.get('reference')) or attempt == 1:
+                results[i] = r
+        corr.extra['retried_jobs'] = corr.extra.get('retried_jobs', 0) + len(redo)
     hist = corr.extra.setdefault('shapes', {'jobs': 0, 'by_policy': {}, 'by_form': {}, 'with_exception': 0, 'with_stdout': 0, 'with_return_value': 0,
                                             'threads_or_tasks': 0, 'syntax_errors': 0, 'interrupts': 0, 'failed_runs': 0})
     cases, src = [], []
     for ji, (job, res) in enumerate(zip(jobs, results)):
         ref = res.get('reference')
+        if res.get('error') == 'timeout':
+            # three runs of this job did not finish: the program does not terminate under nextline (every generated program
+            # terminates when executed directly) -- a finding about the implementation, not a model disagreement
+            hist['failed_runs'] += 1
+            last = [[e.get('type'), e.get('event'), e.get('line_no')] for e in res.get('events', [])][-6:]
+            sig = 'interrupt:run-hangs-after-ctrl-c-at-prompt' if job.get('interrupt') else 'run-does-not-terminate-under-nextline'
+            corr.violations.append(Violation(sig, f'[{job["name"]}, {job["form"]}, policy {job["pol"]}] the run did not finish within {job.get("timeout")} s in '
+                                                  f'three attempts; last events {last}',
+                                             {'job': {k: job[k] for k in ('src', 'form', 'trace_threads', 'trace_modules', 'policy', 'pol', 'name') if k in job},
+                                              'interrupt': bool(job.get('interrupt')), 'last_events': last}))
+            continue
         if res.get('error') or not ref or ref.get('error'):
             hist['failed_runs'] += 1
             corr.mismatches.append({'kind': 'run-failed', 'error': res.get('error') or (ref or {}).get('error'), 'name': job['name'], 'src': job['src'][:400]})
@@ -283,6 +308,8 @@ def run(ctx, jobs: list, corr: Corr, seen: set) -> None:
         hist['threads_or_tasks'] += int(len(ref['streams']) > 1)
         hist['syntax_errors'] += int(ref.get('exc_type') == 'SyntaxError')
         hist['interrupts'] += int(bool(job.get('interrupt')))
+        hist['environment_sensitive'] = hist.get('environment_sensitive', 0) + int(job['name'].startswith('env-'))
+        hist['interrupt_signals_sent'] = hist.get('interrupt_signals_sent', 0) + ((res.get('policy_summary') or {}).get('signals_sent') or 0)
         key = job['src'] + json.dumps([job['form'], job['pol'], job['trace_threads'], job['trace_modules']])
         if key not in seen:
             seen.add(key)
